@@ -167,7 +167,7 @@ var checks = map[string]checkCfg{
 	"C30": {Level: "exploration", Technique: "rapid TLS configurations x real TLS clients pinned to each version/certificate; end-to-end success predicates; rotation probe",
 		Rule:        "each case draws MinVersion/MaxVersion from {0, TLS1.0, 1.1, 1.2, 1.3}, ClientAuth 0-4, CAFile {none, the CA, missing}, cipher suites {nil, defaults, TLS1.2-only ECDSA, legacy ids} and 2-6 clients (pinned to TLS 1.0-1.3, presenting no / CA-signed / self-signed / foreign-CA certificate); for configurations that New and Listen accept every client tries to get a NULL RPC answered over TLS; a quarter of the cases also perform the documented certificate rotation; non-trivial = an accepted configuration met a client offering < TLS1.2 or a non-CA certificate, or a rotation was performed; distinct = FNV-64 of the case JSON",
 		Assumptions: append([]string{"real TLS handshakes on loopback with certificates generated at run time (ECDSA P-256)"}, baseAssumptions...),
-		Phases:      []phase{rp("rapid", "^TestC30$", 6, 40, 16, 600)}},
+		Phases:      []phase{rp("rapid", "^TestC30$", 8, 120, 16, 900)}},
 	"C29": {Level: "exploration", Technique: "rapid concurrent histories with backend jitter under the race detector; porcupine linearizability check against a sequential tree+file model; final server-vs-backend walk and handle-table check; generated cache-fill schedules (reader parked after its k-th backend call while a mutation completes)",
 		Rule:        "each case runs 2-4 client goroutines x 3-6 requests (LOOKUP, CREATE, MKDIR, REMOVE, RENAME, WRITE, READ, GETATTR, SETATTR(size), READDIR) on names private to each client inside one shared directory and through shared handles, with seed-derived Gosched/microsecond sleeps injected before backend calls, under minimal-TTL or caches-on configuration, in a -race binary; non-trivial = at least two requests overlapped in time; distinct = FNV-64 of the case JSON. Interleavings are sampled by the Go scheduler plus jitter, not enumerated",
 		Assumptions: append([]string{"vfs is the thread-safe backend the property assumes", "with caches on a read-type reply may match any earlier state of the name (staleness allowed), a mutation reply may not"}, baseAssumptions...),
